@@ -112,6 +112,8 @@ def gen(rng, tier, ctx):
                                     "errno": rng.choice(["ENOSPC", "EIO"]), "partial": rng.choice([0, 0.5])}]
             elif f < 0.2:
                 op["interrupt"] = {"frac": rng.random()}
+                if rng.random() < 0.4:
+                    op["interrupt"]["exc"] = "MemoryError"
         elif r < 0.93:
             key = rng.choice(["seed", "width", "length", "max_reward", "rb", "lb", "tb", "lt"])
             vals = BAD["prob"] if key in ("rb", "lb", "tb", "lt") else BAD[key]
@@ -243,9 +245,10 @@ def execute(spec, w, ctx):
                 if out0["status"] == "ok":
                     opens = [e[4] for e in out0["fs_events"] if genops.is_write_open(e)]
                     lo = opens[0] if opens else 1
-                    cfg["interrupt"] = {"at": lo + int(op["interrupt"]["frac"] * max(0, out0["steps"] - lo))}
+                    cfg["interrupt"] = {"at": lo + int(op["interrupt"]["frac"] * max(0, out0["steps"] - lo)),
+                                        "exc": op["interrupt"].get("exc")}
             out, before, after, changed, wopens = genops.run_gen(w, op, cfg)
-            faulted = bool(out["fs_fired"]) or out["status"] == "interrupt"
+            faulted = bool(out["fs_fired"]) or out["status"] == "interrupt" or bool(out.get("injected"))
             r = genops.ref_gen(ctx, op)
             events.append([i_op, "gen_cli", out["status"], changed, out["fs_fired"]])
             if faulted and out["status"] != "ok":
